@@ -18,33 +18,40 @@ from verif.gen import unfprog as G
 
 META = {
     "id": "C44", "engine": "E4 unit harness", "engine_path": "harness/unf.cpp",
-    "engine_kind": "C++ driver linked to the real libsimgrid (private headers), scripts on stdin, Python definitional reference",
+    "engine_kind": "C++ driver linked to the real libsimgrid (private headers), scripts on stdin, Python definitional reference; "
+                   "plus three S4U programs explored by the real simgrid-mc --cfg=model-check/reduction:udpor",
     "level": "exploration",
     "technique": "definition-level reference (transitive closure of causes; configuration = causally closed set without two unrelated "
                  "dependent events; conflict = no configuration holds both) compared with every answer of the udpor classes on real unfoldings",
-    "level_text": "Every generated unfolding (0-25 events, built from 1-8 interleavings of per-actor scripts of real transitions of all "
-                  "observable kinds over 1-4 actors, immediate causes either the maximal or all dependent predecessors) is interrogated "
-                  "exhaustively: history / local configuration / in_history_of / related_to / conflicts_with / immediately_conflicts_with / "
-                  "Unfolding::get_immediate_conflicts_of for every event and ordered pair; is_valid_configuration / is_conflict_free / "
-                  "is_maximal / get_largest_maximal_subset / History::get_all_events / get_all_maximal_events / topological orderings / "
-                  "Configuration construction for all 2^n subsets (n <= 10 quick, 13 thorough) or >= 250 sampled subsets incl. every local "
-                  "configuration and their pairwise unions; is_compatible_with (event and history), add_event, latest events per actor, "
-                  "minimally reproducible events, History::get_event_diff_with and four maximal_subsets_iterator runs (plain, filtered, "
-                  "size-limited, both) for configurations; compute_alternative_to / compute_k_partial_alternative_to for (C, D) pairs shaped "
-                  "as UDPOR's; EventSet algebra; LazyPowerset / LazyKSubsets over the EventSet and over vectors; variable_for_loop. "
-                  "Each answer is compared with a reference computed in Python from the definitions.",
+    "level_text": "Every generated unfolding (0-25 events, built from 1-12 interleavings of per-actor scripts of real transitions of all "
+                  "observable kinds over 1-4 actors; immediate causes = the maximal dependent predecessors, or those plus the actor's "
+                  "previous event and a few other dependent predecessors, as ExtensionSetCalculator's ActorJoin / MutexTest extensions "
+                  "build them) is interrogated exhaustively: history / local configuration / in_history_of / related_to / conflicts_with / "
+                  "immediately_conflicts_with / Unfolding::get_immediate_conflicts_of for every event and ordered pair; "
+                  "is_valid_configuration / is_conflict_free / is_maximal / get_largest_maximal_subset / History::get_all_events / "
+                  "get_all_maximal_events / topological orderings / Configuration construction for all 2^n subsets (n <= 10 quick, 13 "
+                  "thorough) or >= 250 sampled subsets incl. every local configuration and their pairwise unions; is_compatible_with (event "
+                  "and history), add_event, latest events per actor, minimally reproducible events, History::get_event_diff_with and four "
+                  "maximal_subsets_iterator runs (plain, filtered, size-limited, both) for every configuration met; compute_alternative_to / "
+                  "compute_k_partial_alternative_to for (C, D) pairs shaped as UDPOR's (C a configuration, D outside C with its history "
+                  "inside); Unfolding::mark_finished + rediscovery; EventSet algebra; LazyPowerset / LazyKSubsets over the EventSet and "
+                  "over vectors; variable_for_loop. Each answer is compared with a reference computed in Python from the definitions.",
     "level_note": "dispatch_depends is trusted (C39/C42) and read from the real code. conflicts_with() is by design a partial test (it looks "
-                  "only at the two events against the other's private history): the oracle demands the definitional answer where one of the "
-                  "two events extends a configuration holding the other's history - the only way the checker asks - and elsewhere only that "
-                  "it never claims a conflict that does not exist; the number of pairs where it differs from the definition is counted "
-                  "(conflict.pairs.missed_inherited). Executions need not be feasible runs: the classes and the reference are functions of "
-                  "the dependency relation only. ExtensionSetCalculator needs a live application (State / RemoteApp) and is not driven. "
-                  "maximal_subsets_iterator with maximum_subset_size = 0 (refused by an xbt_assert) is not asked. Runs on the plain and on "
-                  "the ASan+UBSan flavour.",
+                  "only at the two events against the other's private history; upstream's unit tests pin that): the oracle demands the "
+                  "definitional answer where one of the two events extends a configuration holding the other's history - the only way "
+                  "is_compatible_with / add_event / the spikes of compute_alternative_to ask - and elsewhere only that it never claims a "
+                  "conflict that does not exist; the pairs and non-closed sets where it differs from the definition are counted "
+                  "(conflict.pairs.missed_inherited, conflict_free.nonclosed_sets_differing) and their one reachable consequence is the "
+                  "open finding C44:alternative:throws. Executions need not be feasible runs: the classes and the reference are functions "
+                  "of the dependency relation only. ExtensionSetCalculator needs a live application (State / RemoteApp): it is only run "
+                  "through the three end-to-end simgrid-mc programs, which are judged for the two signatures of the open findings only. "
+                  "maximal_subsets_iterator with maximum_subset_size = 0 (refused by an xbt_assert) and over an ordering that lists an event "
+                  "twice (open finding) is not asked. k-subsets with k = 0: both 'nothing' and 'the empty set' are accepted. Unit harness "
+                  "on the plain and on the ASan+UBSan flavour (smaller dumps there), simgrid-mc runs on the plain flavour.",
     "rule": "case = one dumped unfolding; non-trivial = distinct unfoldings with >= 5 events, >= 1 pair in conflict, >= 1 concurrent pair "
             "and >= 1 causal pair that is not an immediate cause",
     "assumptions": ["dispatch_depends() is the (symmetric) dependency relation (C39/C42)", "actor ids <= 30 (static_config::max_threads)"],
-    "ready": False,
+    "ready": True,
 }
 
 # Channel::unpack<T>() does misaligned loads by design of the wire format: UBSan goes on, only other reports are judged (as C42).
@@ -83,8 +90,8 @@ def hx(m):
 
 
 def gen_case(rng, cid, tier):
-    nact = rng.choice([1, 2, 2, 2, 3, 3, 3, 3, 4, 4])
-    maxlen = rng.choice([1, 2, 3, 3, 4, 4, 5, 6]) if nact > 1 else rng.randrange(1, 8)
+    nact = rng.choice([1, 2, 2, 2, 3, 3, 3, 3, 3, 4, 4, 4])
+    maxlen = rng.choice([1, 2, 3, 4, 5, 6, 7, 8]) if nact > 1 else rng.randrange(1, 9)
     fams = rng.sample(G.FAMILIES, rng.randrange(1, len(G.FAMILIES) + 1)) if rng.random() < 0.7 else list(G.FAMILIES)
     if rng.random() < 0.35:
         fams = [f for f in fams if f in ("mutex", "sem", "condvar")] or ["mutex"]     # dense conflicts
@@ -94,11 +101,11 @@ def gen_case(rng, cid, tier):
         for k, t in enumerate(progs[a]):
             index[(a, k)] = len(trs)
             trs.append(t)
-    maxev = rng.choice([5, 6, 8, 10, 12, 15, 20, 25, rng.randrange(5, 26)])
+    maxev = rng.choice([5, 7, 10, 12, 15, 15, 20, 25, 25, rng.randrange(5, 26)])
     if tier == "asan":
         maxev = min(maxev, 12)
     style = "2 %d" % rng.randrange(1000) if rng.random() < 0.3 else "0"
-    nexec = rng.choice([1, 2, 3, 4, 4, 6, 8, 10])
+    nexec = rng.choice([1, 2, 3, 4, 6, 8, 10, 12])
     execs = []
     for _ in range(nexec):
         pos = {a: 0 for a in progs}
@@ -801,6 +808,63 @@ def harness(fl):
     return build.harness("unf.cpp", fl, internal=True, deps=["unf_trans.hpp"])
 
 
+# ---------------------------------------------------------------------------------------------------------------------
+# End-to-end confirmation with the real checker: small S4U programs explored by simgrid-mc --cfg=model-check/reduction:udpor.
+# Only the two signatures that the unit harness attributes to the udpor classes are judged here; anything else UDPOR does
+# with these programs (it has other ways to give up) is counted, not judged.
+
+UDPOR_RUNS = [
+    # (kind, harness source, program arguments)
+    # 4 actors / 3 mutexes ("a,b;c" = lock a, lock b, unlock b, unlock a, lock c, unlock c)
+    ("alt", "udpor_mux.cpp", ["0,2;0", "1;1", "1,2", "0,1,2"]),
+    # w; J1 joins w; J(i+1) joins J(i) then w
+    ("join", "udpor_join.cpp", ["3"]),
+    ("join", "udpor_join.cpp", ["4"]),
+]
+ALT_SIGNATURE = "Uncaught exception std::invalid_argument: The events do not form a valid configuration"
+
+
+def run_udpor(args):
+    kind, exe, mc, pargs, timeout = args
+    cmd = [mc, "--cfg=model-check/reduction:udpor", exe] + pargs + ["--log=root.thres:info"]
+    if kind == "join":
+        cmd.append("--log=mc_udpor.thres:verbose")
+    res = proc.run(cmd, timeout=timeout)
+    if res.timed_out:
+        return {"inconclusive": "simgrid-mc (udpor) watchdog"}
+    text = res.out + res.err
+    out = {"findings": [], "stats": {"udpor_runs": 1}, "w": {"udpor_run": kind, "args": pargs, "flavour": "hooks"}}
+    ended = "UDPOR exploration ended" in text
+    if ALT_SIGNATURE in text and "compute_k_partial_alternative_to" in text:
+        out["findings"].append(("C44:alternative:throws:udpor-run",
+                                "simgrid-mc --cfg=model-check/reduction:udpor dies on an S4U program of %d actors locking mutexes (%s): %s, thrown by the "
+                                "Configuration constructor under Configuration::compute_k_partial_alternative_to <- UdporChecker::explore"
+                                % (len(pargs), " | ".join(pargs), ALT_SIGNATURE)))
+    elif not ended:
+        out["stats"]["udpor_runs.gave_up_otherwise"] = 1
+    if kind == "join":
+        traces, cur = [], None
+        for line in text.splitlines():
+            if "Execution sequence:" in line:
+                cur = []
+                traces.append(cur)
+            elif cur is not None and "]   Event " in line:
+                cur.append(int(line.split("]   Event ")[1].split(",")[0]))
+            elif cur is not None and "VERBOSE" not in line:
+                cur = None
+        out["stats"]["udpor_traces"] = len(traces)
+        out["stats"]["udpor_trace_events"] = sum(len(t) for t in traces)
+        for t in traces:
+            if len(set(t)) != len(t):
+                dup = next(e for e in t if t.count(e) > 1)
+                out["findings"].append(("C44:get_topological_ordering:duplicate",
+                                        "the execution sequence printed by the real UDPOR checker (UdporChecker::get_textual_trace <- "
+                                        "Configuration::get_topologically_sorted_events) for the chained-join program (%s joiners) lists event %d %d times: %s"
+                                        % (pargs[0], dup, t.count(dup), ",".join(str(e) for e in t))))
+                break
+    return out
+
+
 def absorb(ctx, fl, r, cases, Lcmds, single=False):
     if "inconclusive" in r:
         ctx.inconclusive(r["inconclusive"])
@@ -834,8 +898,23 @@ def absorb(ctx, fl, r, cases, Lcmds, single=False):
         ctx.nontrivial(s)
 
 
+def absorb_udpor(ctx, r):
+    if "inconclusive" in r:
+        ctx.inconclusive(r["inconclusive"])
+        return
+    ctx.evaluation()
+    for key, what in r["findings"]:
+        ctx.violation(key, what, r["w"])
+    for name, v in r["stats"].items():
+        ctx.count(name, v)
+
+
+def worker(job):
+    return run_udpor(job[1:]) if job[0] == "udpor" else run_chunk(job[1:])
+
+
 def run(ctx):
-    n = ctx.size(220, 6000)
+    n = ctx.size(200, 3000)
     exes = {fl: harness(fl) for fl in ("hooks", "asan")}
     chunk = 6
     jobs = []
@@ -847,15 +926,24 @@ def run(ctx):
             ctx.sample({"script": cs[len(dirs)]["lines"]})
         for k in range(0, len(cs), chunk):
             Lc = enumerator_lines(ctx.sub_rng("L", fl, k), 6) if k % (chunk * 4) == 0 else []
-            jobs.append((exes[fl], fl, cs[k:k + chunk], Lc, 900))
-    jobs.sort(key=lambda j: j[1] != "asan")          # the slow flavour first
+            jobs.append(("unit", exes[fl], fl, cs[k:k + chunk], Lc, 900))
+    jobs.sort(key=lambda j: j[2] != "asan")          # the slow flavour first
+    mc = build.simgrid_mc("hooks")
+    jobs = [("udpor", kind, build.harness(src, "hooks"), mc, pargs, 900) for kind, src, pargs in UDPOR_RUNS] + jobs
     workers = int(os.environ.get("VERIF_JOBS", min(16, multiprocessing.cpu_count())))
     with multiprocessing.Pool(workers) as pool:
-        for job, r in zip(jobs, pool.imap(run_chunk, jobs)):
-            absorb(ctx, job[1], r, job[2], job[3])
+        for job, r in zip(jobs, pool.imap(worker, jobs)):
+            if job[0] == "udpor":
+                absorb_udpor(ctx, r)
+            else:
+                absorb(ctx, job[2], r, job[3], job[4])
 
 
 def replay(ctx, witness):
+    if "udpor_run" in witness:
+        src = {"alt": "udpor_mux.cpp", "join": "udpor_join.cpp"}[witness["udpor_run"]]
+        absorb_udpor(ctx, run_udpor((witness["udpor_run"], build.harness(src, "hooks"), build.simgrid_mc("hooks"), witness["args"], 900)))
+        return
     fl = witness.get("flavour", "hooks")
     lines = witness["lines"]
     exe = harness(fl)
